@@ -123,7 +123,9 @@ func normalizeHeaderValue(field, value string) string {
 		return normalizeOrderInsensitive(value)
 
 	case hasNormalizationHeader(normalizationHeader.byCaseInsensitive, field):
-		return strings.ToLower(value)
+		// ASCII letters only: Unicode case mapping replaces invalid UTF-8
+		// bytes by U+FFFD and would make different values equal.
+		return asciiLower(value)
 
 	case hasNormalizationHeader(normalizationHeader.byTimeInsensitive, field):
 		return strings.TrimSpace(value)
@@ -131,7 +133,7 @@ func normalizeHeaderValue(field, value string) string {
 	case field == "Authorization":
 		parts := strings.SplitN(value, " ", 2)
 		if len(parts) == 2 {
-			return strings.ToLower(parts[0]) + " " + parts[1]
+			return asciiLower(parts[0]) + " " + parts[1]
 		}
 		return value
 
